@@ -64,7 +64,7 @@ ASSUMPTIONS = [
     'the end of the request stream after a partial frame may surface as any exception of the parser (the server '
     'closes the connection); only a completed parse / a reply / a tag change is a violation',
 ]
-MIN_EVALUATIONS = {'quick': 6000, 'thorough': 60000}
+MIN_EVALUATIONS = {'quick': 8000, 'thorough': 100000}
 
 TMO = 30.0                  # generous socket timeout; expiry => HarnessError (inconclusive)
 RECV_BLOCK = 4096           # network.recv maxlen
@@ -377,7 +377,9 @@ def _judge_frames(stats, clause, case, frames, tail, got, prefix, ignore=None):
         total += len(frames[i])
         bad = diff_fields(data, expected_fields(frames[i], prefix), prefix, ignore)
         if bad:
-            stats.fail(clause, '%s:field-differs:%s' % (clause, '+'.join(sorted(set(b.split('[')[0] for b in bad))[:3])), case,
+            where = sorted(set('payload' if b in ('input', 'length') else 'unexpected-key' if b.startswith('unexpected:')
+                               else 'header' for b in bad))
+            stats.fail(clause, '%s:frame-content-differs:%s' % (clause, '+'.join(where)), case,
                        observed={'frame': i, 'keys': bad[:8], 'got': _short({k: v for k, v in data.items() if k.startswith(prefix)}, 400)},
                        expected=_short(expected_fields(frames[i], prefix), 400))
             return False
@@ -709,6 +711,7 @@ def tcp_one(case, stats):
     # reset tags
     for s in TCP_SPECS:
         srv.set_values(s['name'], [model.default_value(s['type'])] * s['length'])
+    held = None
     try:
         # the witness is opened before the faulty connection
         if ent['witness'] is None:
@@ -737,11 +740,11 @@ def tcp_one(case, stats):
                 # "acted upon if its final byte has been delivered": the replies to the complete frames must not
                 # wait for the end of the stream (a missing reply shows only as a timeout => inconclusive)
                 early = b''
-                if complete:
+                if complete and ent.get('wait_early', True):
                     fr, left, eof0 = sim.recv_frames(sock, complete, TMO)
                     if len(fr) < complete and not eof0:
-                        raise HarnessError('only %d of %d complete requests answered within %.0fs while the connection '
-                                           'stays open (offset %d)' % (len(fr), complete, TMO, k))
+                        held = (len(fr), complete)
+                        ent['wait_early'] = False       # pay this timeout once per worker only
                     early = b''.join(fr) + left
                 sock.shutdown(socket.SHUT_WR)
                 buf, eof = sim.recv_until_eof(sock, TMO)
@@ -809,6 +812,10 @@ def tcp_one(case, stats):
             fail('tcp:server-thread-died', 'simulator main thread ended', 'listener keeps running')
     except Broken as b:
         fail(b.sig, b.detail, 'other sessions and the listener keep working')
+    if held is not None:
+        # the timing observation alone is inconclusive; whatever the end of the stream then showed is recorded above
+        raise HarnessError('only %d of %d complete requests were answered within %.0fs while the connection stayed open '
+                           '(offset %d)' % (held[0], held[1], TMO, k))
 
 
 def witness_read(ent, spec, want, fail):
@@ -1079,15 +1086,24 @@ def shard(job):
     elif kind == 'client':
         common.hyp_run(s, client_strategy(skey), pred_client, n, sd, 'client', PID, skey=skey)
     elif kind in ('tcp', 'tcp-register'):
-        # a socket timeout is inconclusive; it must not hide what the other engines found in the same run
-        try:
-            if kind == 'tcp':
-                common.hyp_run(s, tcp_strategy(skey), pred_tcp, n, sd, 'tcp-truncation', PID, skey=skey)
-            else:
-                common.run_pred(pred_tcp, {'ops': [], 'register_only': True, 'k': 'all'}, s, 'tcp-truncation')
-        except HarnessError as exc:
+        # a socket timeout is inconclusive; it must not hide what the other engines found in the same run (and
+        # Hypothesis must not see it: it would re-execute the example and call the result flaky)
+        state = {'err': None}
+
+        def guarded(case, stats):
+            if state['err'] is None:
+                try:
+                    pred_tcp(case, stats)
+                except HarnessError as exc:
+                    state['err'] = exc
+
+        if kind == 'tcp':
+            common.hyp_run(s, tcp_strategy(skey), guarded, n, sd, 'tcp-truncation', PID, skey=skey)
+        else:
+            common.run_pred(guarded, {'ops': [], 'register_only': True, 'k': 'all'}, s, 'tcp-truncation')
+        if state['err'] is not None:
             s.extra['tcp_inconclusive_shards'] = 1
-            s.notes.append('TCP shard inconclusive: %s' % (str(exc).strip().splitlines()[-1][:200],))
+            s.notes.append('TCP shard inconclusive: %s' % (str(state['err']).strip().splitlines()[-1][:200],))
     else:
         raise HarnessError('unknown job %r' % (job,))
     return s
@@ -1119,24 +1135,24 @@ def run(tier, seed):
     add('tcp-register', 1, None)
     # (a)/(b) streams holding a > 4096 byte frame: the split positions of each stream dealt over several workers
     if thorough:
-        for _ in range(5):
+        for _ in range(3):
             add('framer', 3, ['sweep', 'mixed', 'one', None, False], parts=16)
-        for _ in range(2):
-            add('client', 3, ['sweep', 'reply', 'one', None, False], parts=16)
+        for _ in range(2):      # ~0.35 s per case: dense sampling instead of all positions
+            add('client', 3, ['sweep', 'reply', 'one', None, 1], parts=16)
     else:
         add('framer', 3, ['sweep', 'mixed', 'one', None, 1], parts=8)
         add('client', 2, ['sweep', 'reply', 'one', None, 2], parts=8)
     # small streams: every two-way split
     for _ in range(12 if not thorough else 32):
         add('framer', 5 if not thorough else 40, ['sweep', 'mixed', None, None, False])
-    for _ in range(8 if not thorough else 32):
-        add('client', 3 if not thorough else 20, ['sweep', 'reply', None, None, False])
+    for _ in range(8 if not thorough else 24):
+        add('client', 3 if not thorough else 16, ['sweep', 'reply', None, None, False])
     # Hypothesis-drawn k-way chunkings
     for _ in range(4 if not thorough else 16):
         add('framer', 120 if not thorough else 1200, ['kway', 'mixed', None])
         add('framer', 12 if not thorough else 100, ['kway', 'mixed', 'one'])
         add('client', 60 if not thorough else 500, ['kway', 'reply', None])
-        add('client', 6 if not thorough else 50, ['kway', 'reply', 'one'])
+        add('client', 6 if not thorough else 30, ['kway', 'reply', 'one'])
     if thorough:
         for _ in range(4):
             add('framer', 6, ['huge'])
@@ -1144,15 +1160,17 @@ def run(tier, seed):
     if stats.extra.get('tcp_inconclusive_shards') and not stats.fails:
         raise HarnessError('%d TCP shard(s) inconclusive: %s' % (stats.extra['tcp_inconclusive_shards'],
                                                               '; '.join(n for n in stats.notes if n.startswith('TCP shard'))))
-    big = ('all positions' if thorough else 'positions within 40 (client: 8) bytes of a frame edge, within 2 of a 4096-byte block edge '
-           'and every 61st (client: 509th) position (quick tier; the thorough tier enumerates all)')
+    sampled = ('positions within %d bytes of a frame edge, within 2 of the header/payload edge and of a 4096-byte block edge, and '
+               'every %dth position')
+    big_f = 'all positions' if thorough else sampled % (40, 61) + ' (quick tier; thorough enumerates all)'
+    big_c = sampled % ((40, 61) if thorough else (8, 509))
     stats.exhaustive['framer:two-way-splits'] = (
         'every cut position 1..len-1 of every generated stream without a > 4096 byte payload (EOF delivered; every 7th '
         'position also without EOF), plus byte-at-a-time, one chunk and 4096-byte blocks; streams holding a > 4096 byte '
-        'payload: ' + big)
+        'payload: ' + big_f)
     stats.exhaustive['client:two-way-splits'] = (
         'every cut position 1..len-1 of every generated reply stream without a > 4096 byte payload, plus byte-at-a-time '
-        'and one chunk; streams holding a > 4096 byte reply: ' + big)
+        'and one chunk; streams holding a > 4096 byte reply: ' + big_c)
     stats.exhaustive['tcp:truncation-offsets'] = ('every offset 0..len of every generated request stream (1..4 writes) and of the '
                                                   'Register frame of an unregistered connection')
     return stats
